@@ -52,7 +52,7 @@ ASSUMPTIONS = [
 MIN_DISTINCT = {'quick': 800, 'thorough': 12000}
 CASE_TIMEOUT = 180
 
-N_CASES = {'quick': 144, 'thorough': 2400}
+N_CASES = {'quick': 108, 'thorough': 2400}
 
 ALGOS = ['scipy', 'LS-newton', 'TR-newton', 'LS-BFGS', 'TR-BFGS', 'simple_bounds', 'simple_bounds_newton',
          'simple_bounds_BFGS', 'automatic']
@@ -135,7 +135,14 @@ def cases(seed, tier):
     n = N_CASES[tier]
     for i in range(n):
         out.append({'seed': seed, 'i': i, 'config': CONFIGS[i % len(CONFIGS)], 'start': STARTS[(i // len(CONFIGS)) % len(STARTS)]})
+    # hand-made problems that reproduce the recorded findings at every run, whatever the seed
+    out.insert(0, {'seed': seed, 'i': 900001, 'directed': 'capped_at_start', 'config': 'inactive', 'start': 'default'})
+    out.insert(1, {'seed': seed, 'i': 900002, 'directed': 'nan_linesearch', 'config': 'none', 'start': 'default'})
     return out
+
+
+DEFAULT_OPTIONS = {'number_of_threads': 1, 'save_iterations': False, 'initial_radius': 1.0, 'dogleg': True, 'second_derivatives': 1.0,
+                   'max_iterations': 1000, 'enlarging_factor': 10.0, 'infeasible_cg': False}
 
 
 def _options(case):
@@ -174,9 +181,10 @@ def _prepare(case):
     from ..gen import c07_problems as gp
     from ..oracle import c07_oracle as orc
 
-    spec, data = gp.make_problem(case['seed'], case['i'])
-    if case.get('form'):
-        spec['form'] = case['form']
+    if case.get('directed'):
+        spec, data = gp.directed_problem(case['directed'])
+    else:
+        spec, data = gp.make_problem(case['seed'], case['i'])
     free = sorted(k for k, v in spec['params'].items() if v['status'] == 0)
     K = len(free)
     model = orc.Model(spec, data, free)
@@ -187,8 +195,9 @@ def _prepare(case):
     typ = np.array([spec['params'][k].get('typ', 1.0) for k in free])
     if not np.isfinite(condH) or condH > 1e7 or np.max(np.abs(u['x']) / typ) > 12:
         return None, 'rejected_ill_conditioned_or_quasi_separated'
-    rng = np.random.default_rng([int(case['seed']), int(case['i']), 31])
-    gp.configure(spec, dict(zip(free, (float(v) for v in u['x']))), case['config'], case['start'], rng)
+    if not case.get('directed'):
+        rng = np.random.default_rng([int(case['seed']), int(case['i']), 31])
+        gp.configure(spec, dict(zip(free, (float(v) for v in u['x']))), case['config'], case['start'], rng)
     P = spec['params']
     ctx = {'case': case, 'spec': spec, 'data': data, 'free': free, 'model': model, 'u': u, 'P': P}
     ctx['lbd'] = {k: P[k]['lb'] for k in free}
@@ -204,18 +213,20 @@ def _prepare(case):
     # bounds that are binding at the certified constrained maximum (non-zero multiplier)
     ctx['binding'] = {k for j, k in enumerate(free) if (c['x'][j] <= ctx['lo'][j] or c['x'][j] >= ctx['hi'][j])
                       and abs(c['g'][j]) > 1e-7 * ctx['gscale']}
-    ctx['opts'] = dict(_options(case), **case.get('options', {}))
+    ctx['opts'] = dict(DEFAULT_OPTIONS) if case.get('directed') else _options(case)
     ctx['spec_hash'] = stable_hash([spec, {k: np.asarray(v).tolist() for k, v in data.items()}, ctx['opts']])
     return ctx, None
 
 
 def _plan(case):
-    if case.get('runs'):
-        return [tuple(r) for r in case['runs']]
+    if case.get('directed'):
+        from ..gen import c07_problems as gp
+
+        return [tuple(r) for r in gp.DIRECTED[case['directed']][1]]
     plan = []
     for idx, algo in enumerate(ALGOS):
         plan.append((algo, 'estimate'))
-        if (case['i'] + idx) % 3 == 0:
+        if (case['i'] // 6 + idx) % 3 == 0:
             plan.append((algo, 'quick_estimate'))
     return plan
 
@@ -359,33 +370,29 @@ def _one_run(ctx, algo, mode):
     pr.set_value('max_iterations', opts['max_iterations'], 'SimpleBounds')
     pr.set_value('enlarging_factor', opts['enlarging_factor'], 'SimpleBounds')
     pr.set_value('infeasible_cg', opts['infeasible_cg'], 'SimpleBounds')
-    cwd0 = os.getcwd()
     if opts['save_iterations']:
-        # the default path reads/writes __<model>.iter in cwd: give every run a fresh directory
-        d = os.path.join(os.environ.get('BIOMON_WORKDIR', cwd0), f'c07_{os.getpid()}')
+        # the default path reads/writes __<model>.iter in cwd: every run (a forked child) gets a fresh directory and stays there
+        d = os.path.join(os.environ.get('BIOMON_WORKDIR', os.getcwd()), f'c07_{os.getpid()}')
         os.makedirs(d, exist_ok=True)
         os.chdir(d)
     del _CALLS[:]
     unsafeguarded = algo in ('LS-newton', 'LS-BFGS', 'TR-newton', 'TR-BFGS')
     try:
-        try:
-            bg = bio.BIOGEME(db, formulas, parameters=pr)
-            bg.modelName = f'c07_{case["i"]}'
-            res = getattr(bg, mode)()
-        except BaseException as e:  # noqa  (a concave model with a finite maximum must be estimable)
-            import traceback
+        bg = bio.BIOGEME(db, formulas, parameters=pr)
+        bg.modelName = f'c07_{case["i"]}'
+        res = getattr(bg, mode)()
+    except BaseException as e:  # noqa  (a concave model with a finite maximum must be estimable)
+        import traceback
 
-            nf = _nonfinite_evaluations(_CALLS[0]['fct']) if _CALLS else 0
-            rec.c(f'raised_{algo}')
-            if unsafeguarded and nf:
-                viol('unsafeguarded-algorithm-continues-from-non-finite-likelihood',
-                     f'{mode}() raised {type(e).__name__}: {str(e)[:300]} after the algorithm accepted an iterate whose likelihood is not finite '
-                     f'({nf} non-finite evaluations in the function object)', traceback=traceback.format_exc()[-1500:])
-            else:
-                viol(f'{mode}-raises-{type(e).__name__}', f'{type(e).__name__}: {e}', traceback=traceback.format_exc()[-1500:])
-            return rec.out()
-    finally:
-        os.chdir(cwd0)
+        nf = _nonfinite_evaluations(_CALLS[0]['fct']) if _CALLS else 0
+        rec.c(f'raised_{algo}')
+        if unsafeguarded and nf:
+            viol('unsafeguarded-algorithm-continues-from-non-finite-likelihood',
+                 f'{mode}() raised {type(e).__name__}: {str(e)[:300]} after the algorithm accepted an iterate whose likelihood is not finite '
+                 f'({nf} non-finite evaluations in the function object)', traceback=traceback.format_exc()[-1500:])
+        else:
+            viol(f'{mode}-raises-{type(e).__name__}', f'{type(e).__name__}: {e}', traceback=traceback.format_exc()[-1500:])
+        return rec.out()
     calls = list(_CALLS)
     d = res.data
     rec.c(f'run_{algo}_{case["config"]}')
